@@ -52,6 +52,8 @@ def main():
         print(f'HARNESS-ERROR: kernpy imported from {kernpy.__file__}, expected under {src}')
         sys.exit(2)
 
+    # evidence and replay files of runs against another tree (mutants, seeded changes) never touch /verif/evidence
+    out_dir = os.environ.get('VERIF_OUT_DIR') or (HERE if src == '/repo' else os.path.join(os.path.dirname(src), 'verif_out'))
     from kv import core
     mod = importlib.import_module(f'kv.props.{prop.lower()}')
     findings, fixed = core.load_known()
@@ -93,13 +95,13 @@ def main():
 
     replay_paths = []
     if unlisted_keys:
-        os.makedirs(os.path.join(HERE, 'replays'), exist_ok=True)
+        os.makedirs(os.path.join(out_dir, 'replays'), exist_ok=True)
         for v in ctx.viol:
             k = (v['cls'], v['symptom'])
             if k not in unlisted_keys:
                 continue
             rec = {'property': prop, 'tier': args.tier, 'seed': seed, **v}
-            path = os.path.join(HERE, 'replays', f"{prop}-{core.digest(rec['case'])}.json")
+            path = os.path.join(out_dir, 'replays', f"{prop}-{core.digest(rec['case'])}.json")
             with open(path, 'w', encoding='utf-8') as f:
                 json.dump(rec, f, indent=1, ensure_ascii=False, default=repr)
             replay_paths.append((k, path))
@@ -115,7 +117,7 @@ def main():
 
     ks = [{'class': f['cls'], 'symptom': f['symptom'], 'count': c} for (f, c) in known_seen.values()]
     ctx.extra['stale_known_findings'] = [{'class': f['cls'], 'symptom': f['symptom']} for f in stale]
-    ev_path = os.path.join(HERE, 'evidence', f'{prop}.json')
+    ev_path = os.path.join(out_dir, 'evidence', f'{prop}.json')
     ev = core.write_evidence(ctx, sum(unlisted_keys.values()), ks, ev_path)
 
     for (f, c) in known_seen.values():
